@@ -1554,8 +1554,9 @@ def ADC(
 
     V_min, V_max = shortest_int(signal, 99.99)
     
+    span = np.where(V_max > V_min, V_max - V_min, 1.0)  # a constant record has no range: every sample maps to code 0
     dig_signal = np.round(
-        (signal - V_min) / (V_max - V_min) * (2**n - 1)
+        (signal - V_min) / span * (2**n - 1)
     ).clip(0, 2**n - 1).astype(int)  # quantize signal between 0 and 2**n-1 (out-of-range samples saturate)
     
     if otype == 'v':
